@@ -200,6 +200,7 @@ func inlineNewHelpers(roots []*packages.Package, byPath map[string]*packages.Pac
 }
 
 type inliner struct {
+	tailMode bool // the call being expanded is the whole operand of a `return`: the helper's returns become the caller's
 	nameObj map[string]types.Object // caller variables that receive results directly (threaded expansion): name -> object
 	pk    *packages.Package
 	fset  *token.FileSet
@@ -605,6 +606,15 @@ func (in *inliner) ident(name string) *ast.Ident {
 	return id
 }
 
+func hasTopDefer(b *ast.BlockStmt) bool {
+	for _, st := range b.List {
+		if _, ok := st.(*ast.DeferStmt); ok {
+			return true
+		}
+	}
+	return false
+}
+
 func (in *inliner) bodyOf(c *inlCand) *ast.BlockStmt {
 	if c.decl != nil {
 		return c.decl.Body
@@ -851,6 +861,14 @@ func (in *inliner) rewriteStmt(st ast.Stmt, fd *ast.FuncDecl, file *ast.File, c 
 				nres := in.numResults(c)
 				if nres == 0 {
 					return nil, false
+				}
+				if !hasTopDefer(in.bodyOf(c)) {
+					in.tailMode = true
+					repl, ok := in.expand(ce, nil, token.ILLEGAL, fd, file, c)
+					in.tailMode = false
+					if ok {
+						return repl, true
+					}
 				}
 				var tmps []ast.Expr
 				in.seq++
@@ -1365,6 +1383,9 @@ func (in *inliner) expandT(ce *ast.CallExpr, assign *ast.AssignStmt, tok token.T
 					declare = th.declare[k]
 				}
 				resTmp = append(resTmp, tmp)
+				if in.tailMode && th == nil {
+					declare = false // results go straight to the caller's return
+				}
 				if declare {
 					vd := varDecl(tmp, copyNode(f.Type, nil, nil).(ast.Expr), f.Type.End())
 					if th != nil && k < len(th.resIdents) && th.resIdents[k] != nil {
@@ -1415,6 +1436,20 @@ func (in *inliner) expandT(ce *ast.CallExpr, assign *ast.AssignStmt, tok token.T
 	if th != nil {
 		mk = in.threadedReturnRewriter(th, resTmp, named, label, &usedLabel)
 	}
+	tail := in.tailMode && th == nil
+	if tail {
+		// `return h(x)`: every `return e` of the helper is a return of the caller — no temporaries, no merge
+		mk = func(r *ast.ReturnStmt, isLast bool) []ast.Stmt {
+			if len(r.Results) > 0 {
+				return []ast.Stmt{&ast.ReturnStmt{Return: r.Return, Results: r.Results}}
+			}
+			var rs []ast.Expr
+			for _, nn := range named {
+				rs = append(rs, ast.NewIdent(nn))
+			}
+			return []ast.Stmt{&ast.ReturnStmt{Return: r.Return, Results: rs}}
+		}
+	}
 	rewriteReturnsD(body, mk, true, nres, &in.seq)
 	// parameters and named results live in the same scope as the body's own top-level declarations (a `x, err := …`
 	// in the body re-uses a parameter or named result called x)
@@ -1426,6 +1461,13 @@ func (in *inliner) expandT(ce *ast.CallExpr, assign *ast.AssignStmt, tok token.T
 	}
 	blk := &ast.BlockStmt{Lbrace: ce.Pos(), List: []ast.Stmt{inner}, Rbrace: ce.End()}
 	out := append(pre, blk)
+	if tail {
+		c.done++
+		InlineLog = append(InlineLog, fmt.Sprintf("%s expanded (tail) in %s at %s", c.obj.Name(), fd.Name.Name, in.fset.Position(ce.Pos())))
+		// the block ends in a return on every path; a trailing panic keeps the type checker's "missing return" quiet
+		// for bodies whose last statement is not syntactically terminating
+		return append(out, &ast.ExprStmt{X: &ast.CallExpr{Fun: ast.NewIdent("panic"), Args: []ast.Expr{&ast.BasicLit{Kind: token.STRING, Value: `"unreachable"`}}}}), true
+	}
 	if th != nil {
 		// results were assigned and the consuming `if` was taken at every return site; the variable the `if` tested may
 		// have no other use left
